@@ -5,7 +5,7 @@ reg(Prop('C09', [
     Stream('c09.sleb', 20000, 2000000, 'spec', exhaustive='same domain as c09.uleb'),
     Stream('c09.uleb32', 5000, 500000, 'spec'),
     Stream('c09.skipleb', 5000, 500000, 'spec'),
-    Stream('c09.uleb16', 1, 1000000, 'spec', exhaustive='quick: all strings <= 2 bytes and 3-byte strings over a 48x128x256 grid; thorough: every string of length <= 3'),
+    Stream('c09.uleb16', 1, 1000000, 'spec', exhaustive='quick: all strings <= 2 bytes and 3-byte strings over an 18x34x256 grid; thorough: every string of length <= 3'),
     Stream('c09.wuleb', 20000, 2000000, 'spec', exhaustive='all values < 2^16, 2^k-1,2^k,2^k+1 for every k'),
     Stream('c09.wsleb', 20000, 2000000, 'spec', exhaustive='all values in [-2^15,2^15), +-(2^k-1,2^k,2^k+1)'),
     Stream('c09.fixed', 30000, 3000000, 'spec'),
